@@ -20,6 +20,7 @@ claimed = {
  "C02": "Theorems C02_update_appends, C02_identity_kept and C02_timestamp (BCD time stamp decodes to the instant and offset for every zone offset) on the model; records of the model compared with ChfUe.Records after every operation (content, order, BER size); exactly-once / identity / cause monitor over every observed history incl. two-session and record-splitting histories; TimeStampToCdr compared on all 1681 minute offsets",
  "C03": "Theorem C03_dump_wf: the file dumpCdrFile writes is a well-formed TS 32.297 file whenever every record encoding fits 16 bits (via the C14/C15 theorems); record sizes of the model (BER encoder model on the regenerated schema) compared with the real encodings; the independent reader + generic TLV walker are run in Coq on the bytes of /tmp/<supi>.cdr; known finding C03/record-exceeds-65535 proved as C03_oversize_refuted",
  "C10": "Theorems C10_reference_determines_counter (any SUPI and consumer text) and C10_unique (NoDup of the references handed out in any history) on the model; references, session map and record counter compared with the CHF on adversarial-name histories; uniqueness/designation monitor on the observed state. Concurrent creates are C09's subject",
+ "C09": "Theorems C09_mutual_exclusion (in any execution where locks behave as locks and accesses are made by the holder of the variable's guard, two accesses by different tasks under one lock are separated by the first task's release: no data race, critical sections - the handlers - do not interleave per subscriber), C09_no_deadlock (tasks respecting the lock order cannot wait in a cycle) and C09_table on the access table regenerated from internal/sbi/processor and internal/context each run (go/ast with call-graph locksets: every access to the subscriber / global state holds its guard, lock order CULock before context mutex, no check-then-act on the subscriber pool). Partial: the real stack under the race detector, bursts of 2..16 concurrent requests (same subscriber, same new SUPI, different subscribers) under GOMAXPROCS 1/2/4/16 with quiescent checks (no race report, crash or hang; accounting identity; containers recorded exactly once; acknowledged sessions usable) - interleavings are sampled, not enumerated",
  "C19": "Theorems C19_sound (for any history of starts, deliveries - delayed, repeated, after the request returned, while a later request waits - timeouts and returns, every answer a request acts on is its own, no handler stays blocked and no later request blocks) and C19_own_answer on the client facts regenerated from the two Diameter clients each run (go/ast: per-request buffered channel, non-blocking handler send, connection check, close on return); C19_original_refuted / C19_closing_only_refuted show the histories that blocked the earlier code. Partial: scenarios through the real stack with a fault-injecting relay between the clients and their servers (delay beyond the timer, drop, repeat, late repeat; rating and account-balance peer; different positions) - the model, fed the relay's log, must predict whether a request hangs; the monitor requires every request to complete and to be granted what it asked for",
  "C18": "Theorems C18_bounded (in every history of exchanges, any interleaving, the established Diameter connections never outnumber the exchanges in flight, and at quiescence no connection and no task serving one is left) and C18_sites_closed on the table of Dial call sites regenerated from /repo/internal each run (go/ast: closed on every path after the dial); C18_unclosed_site_leaks shows n requests leave n connections otherwise. Partial: established connections to the rating / account-balance ports (/proc/self/net/tcp) and goroutine counts measured after every operation of N = 10, 100 (1000 thorough) online-charging updates against the model's count and a fixed bound; runtime goroutine numbers are bounded, not predicted",
  "C20": "Theorems C20_sound (for arbitrary verdicts of the leaf validators, a configuration accepted by Config.Validate passes every configuration read of the start-up path and of the first charging request without a nil pointer and registers no route twice), C20_rejects_missing_section / _scheme / _service / _duplicate_service, C20_tables_supported, over the struct-tag tables regenerated from pkg/factory each run; model of ValidateStruct + the validate methods and of the start-up reads compared with one child process per configuration (factory.ReadConfig, service.NewApp, Start against a stub NRF) over the presence lattice of sections and leaf variants; crash / must-reject monitor on the observed outcomes",
